@@ -22,10 +22,47 @@ OUT OF OR IN CONNECTION WITH THE SOFTWARE OR THE USE OR OTHER DEALINGS IN
 THE SOFTWARE.
 """
 
-import functools
-import shlex
-
 from pytools import UniqueNameGenerator
+
+
+def split_outside_strings(line, escape_char=None):
+    """Split *line* into words at whitespace that is not part of a quoted
+    string. Unlike :func:`shlex.split`, this recognizes quotes that begin in
+    the middle of a word (as in ``f('a  b')``) and does not end a word at a
+    closing quote (as in the Fortran literal ``'a''b'``).
+
+    :arg escape_char: if not *None*, a character that, inside of a quoted
+        string, quotes the character following it
+    """
+    tokens = []
+    current = []
+    quote = None
+
+    i = 0
+    while i < len(line):
+        char = line[i]
+        if quote is not None:
+            current.append(char)
+            if char == escape_char and i + 1 < len(line):
+                i += 1
+                current.append(line[i])
+            elif char == quote:
+                quote = None
+        elif char in "'\"":
+            quote = char
+            current.append(char)
+        elif char.isspace():
+            if current:
+                tokens.append("".join(current))
+                current = []
+        else:
+            current.append(char)
+        i += 1
+
+    if current:
+        tokens.append("".join(current))
+
+    return tokens
 
 
 def wrap_line_base(line, level=0, width=80, indentation="    ",
@@ -42,7 +79,7 @@ def wrap_line_base(line, level=0, width=80, indentation="    ",
     `lex_func` argument returns the list of tokens in the line.
     """
     if lex_func is None:
-        lex_func = functools.partial(shlex.split, posix=False)
+        lex_func = split_outside_strings
 
     tokens = lex_func(line)
     resulting_lines = []
